@@ -184,6 +184,15 @@ func TopIstioFrame(st string) string {
 	return "unknown"
 }
 
+// AddEvaluations counts n further evaluations inside the current case, for engines whose unit of
+// evaluation (checkpoint, scenario, proxy pair ...) is finer than a Case; use it so that
+// evaluations and distinct_nontrivial count the same unit.
+func (c *Ctx) AddEvaluations(n int) {
+	c.mu.Lock()
+	c.res.Evaluations += n
+	c.mu.Unlock()
+}
+
 // Nontrivial marks the case identified by hash as non-trivial by the property's rule.
 func (c *Ctx) Nontrivial(hash string) {
 	c.mu.Lock()
